@@ -73,7 +73,7 @@ func TestC12(t *testing.T) {
 	defer rec.Finish(t)
 	thorough := vk.Tier() == "thorough"
 	rec.Rule("case = (licence version, issued key, mutation): every single-bit flip of the 24 decoded bytes, every single-character substitution at every position, XOR of structured masks on each field, every single identity bit (master id, contract, signature) combined with permission-byte rewrites, swaps of 8-byte blocks and 4-character groups, truncation/extension" +
-		map[bool]string{true: ", splices between keys of equal salt", false: ""}[thorough] + "; the mutated string's grants over a probe set (44 channels x 6 operations + 'may mint keys') on the real Service.Authorize are compared with the original's; " +
+		" (splices of two keys are the subject of the part 'splice'); the mutated string's grants over a probe set (44 channels x 6 operations + 'may mint keys') on the real Service.Authorize are compared with the original's; " +
 		"non-trivial = the mutated string differs from the original and is accepted for at least one probe (decrypts and validates); all mutated strings are counted in evaluations; distinct = (licence, key, mutated string)")
 	probes := c12Probes()
 	type issued struct {
@@ -114,16 +114,6 @@ func TestC12(t *testing.T) {
 			plain, _ := b.Cipher.DecryptKey([]byte(orig))
 			raw, _ := base64.RawURLEncoding.DecodeString(orig)
 			muts := c12Mutations(orig, raw, thorough)
-			if thorough { // splices with another key of the same salt
-				other := b.RawKey(func(k security.Key) {
-					k.SetSalt(uint16(0x1000 + ki))
-					k.SetPermissions(Perms("rwslp"))
-					k.SetTarget("#/")
-				})
-				for cut := 1; cut < 32; cut++ {
-					muts = append(muts, orig[:cut]+other[cut:], other[:cut]+orig[cut:])
-				}
-			}
 			for _, m := range muts {
 				caseNo++
 				if m == orig || !vk.Mine(caseNo) {
